@@ -112,7 +112,7 @@ def _write_mode_open(e):
     return "dest" in free and free <= {"dest", "os"} and ok_calls
 
 
-def glue_obligations(ctx):
+def glue_obligations(ctx, parts=("serializable", "charmatrix", "dataset", "reader")):
     out = []
     t0 = [time.time()]
 
@@ -133,7 +133,7 @@ def glue_obligations(ctx):
         return fn, target
 
     # ---- the three destinations of Serializable
-    for meth, how in (("write_to_stream", "given"), ("write_to_path", "open"), ("as_string", "stringio")):
+    for meth, how in (("write_to_stream", "given"), ("write_to_path", "open"), ("as_string", "stringio")) if "serializable" in parts else ():
         fn, target = get(BM, "Serializable", meth)
         if fn is None:
             continue
@@ -178,7 +178,7 @@ def glue_obligations(ctx):
             uses = [n for n in ast.walk(fn) if _is_name(n, name) and isinstance(n.ctx, ast.Load)]
             emit("%s.buffer-used-for-nothing-else" % p, len(uses) == 2, target, "%d uses of the buffer (expected: handed to the writer, getvalue())" % len(uses))
     # ---- the dispatcher
-    fn, target = get(BM, "Serializable", "_write_to")
+    fn, target = get(BM, "Serializable", "_write_to") if "serializable" in parts else (None, None)
     if fn is not None:
         for kind, callee in (("file", "write_to_stream"), ("path", "write_to_path")):
             calls = _calls(fn, callee)
@@ -198,7 +198,7 @@ def glue_obligations(ctx):
         # (the tuple target is not seen by _bindings, so "no other binding" == 0)
         emit("Serializable._write_to.destination-and-schema-come-from-the-call's-keywords-only", ok, target, "dest_type / dest / schema are bound elsewhere as well")
     # ---- CharacterMatrix: writer glue
-    fn, target = get(CM, "CharacterMatrix", SINK)
+    fn, target = get(CM, "CharacterMatrix", SINK) if "charmatrix" in parts else (None, None)
     if fn is not None:
         gw = [n for n in ast.walk(fn) if isinstance(n, ast.Call) and isinstance(n.func, ast.Attribute) and n.func.attr == "get_writer"]
         ok = len(gw) == 1 and len(gw[0].args) == 1 and _is_name(gw[0].args[0], "schema") and _passes_kwargs(gw[0], fn) and len(gw[0].keywords) == 1
@@ -222,7 +222,7 @@ def glue_obligations(ctx):
             emit("CharacterMatrix.%s.writes-to-the-caller's-stream" % SINK, _is_name(a1, "stream") and len(c.args) + len(c.keywords) == 2, target,
                  "call: %s" % ast.unparse(c))
     # ---- DataSet: writer glue
-    fn, target = get(DS, "DataSet", SINK)
+    fn, target = get(DS, "DataSet", SINK) if "dataset" in parts else (None, None)
     if fn is not None:
         gw = [n for n in ast.walk(fn) if isinstance(n, ast.Call) and isinstance(n.func, ast.Attribute) and n.func.attr == "get_writer"]
         ok = len(gw) == 1 and len(gw[0].args) == 1 and _is_name(gw[0].args[0], "schema") and _passes_kwargs(gw[0], fn) and len(gw[0].keywords) == 1
@@ -235,7 +235,7 @@ def glue_obligations(ctx):
         emit("DataSet.%s.nothing-excluded-by-default" % SINK, ok and _options_untouched(fn, ("kwargs", "schema", "stream", "exclude_trees", "exclude_chars")), target,
              "defaults: %s" % dict((k, ast.unparse(v)) for k, v in d.items()))
     # ---- CharacterMatrix: reader glue
-    fn, target = get(CM, "CharacterMatrix", "_parse_and_create_from_stream")
+    fn, target = get(CM, "CharacterMatrix", "_parse_and_create_from_stream") if "reader" in parts else (None, None)
     if fn is not None:
         p = "CharacterMatrix._parse_and_create_from_stream"
         gr = [n for n in ast.walk(fn) if isinstance(n, ast.Call) and isinstance(n.func, ast.Attribute) and n.func.attr == "get_reader"]
@@ -278,6 +278,47 @@ def glue_obligations(ctx):
                         fn.body.index(s) < _stmt_index(fn, rets[0]):
                     guard = True
         emit("%s.another-data-type-is-refused-not-returned" % p, guard, target, "no `if %s.data_type != cls.data_type: raise` before the return" % mname)
+    # ---- trees (used by C02): TreeList and Tree writer glue
+    fn, target = get("dendropy.datamodel.treecollectionmodel", "TreeList", SINK) if "trees" in parts else (None, None)
+    if fn is not None:
+        gw = [n for n in ast.walk(fn) if isinstance(n, ast.Call) and isinstance(n.func, ast.Attribute) and n.func.attr == "get_writer"]
+        ok = len(gw) == 1 and len(gw[0].args) == 1 and _is_name(gw[0].args[0], "schema") and _passes_kwargs(gw[0], fn) and len(gw[0].keywords) == 1
+        emit("TreeList.%s.writer-made-for[schema, **kwargs]" % SINK, ok, target, "get_writer call: %s" % (ast.unparse(gw[0]) if gw else "none"))
+        wc = _calls(fn, "write_tree_list")
+        wname = None
+        for n in ast.walk(fn):
+            if isinstance(n, ast.Assign) and gw and n.value is gw[0] and len(n.targets) == 1 and isinstance(n.targets[0], ast.Name):
+                wname = n.targets[0].id
+        ok = len(wc) == 1 and wname is not None and _is_name(wc[0].func.value, wname) and [getattr(a, "id", None) for a in wc[0].args] == ["self", "stream"] and not wc[0].keywords \
+            and not any(isinstance(n, (ast.For, ast.While, ast.If, ast.Try)) for n in ast.walk(fn))
+        emit("TreeList.%s.that-writer-writes[self, stream]-once-unconditionally" % SINK, ok, target, "write_tree_list calls: %s" % [ast.unparse(c) for c in wc])
+        emit("TreeList.%s.options-untouched" % SINK, _options_untouched(fn, ("kwargs", "schema", "stream")), target, "kwargs/schema/stream are modified")
+    fn, target = get("dendropy.datamodel.treemodel._tree", "Tree", SINK) if "trees" in parts else (None, None)
+    if fn is not None:
+        p = "Tree.%s" % SINK
+        mk = [n for n in ast.walk(fn) if isinstance(n, ast.Assign) and isinstance(n.value, ast.Call) and _is_name(n.value.func, "TreeList") and len(n.targets) == 1
+              and isinstance(n.targets[0], ast.Name)]
+        lname = mk[0].targets[0].id if len(mk) == 1 else None
+        ok = lname is not None and not mk[0].value.args and [k.arg for k in mk[0].value.keywords] == ["taxon_namespace"] and \
+            ast.unparse(mk[0].value.keywords[0].value) == "self.taxon_namespace" and len(_bindings(fn, lname)) == 1
+        emit(p + ".wraps-itself-in-a-new-list-over-its-own-namespace", ok, target, "TreeList(...) made: %s" % [ast.unparse(n.value) for n in mk])
+        lcalls = [n for n in ast.walk(fn) if isinstance(n, ast.Call) and isinstance(n.func, ast.Attribute) and _is_name(n.func.value, lname)]
+        ap = [c for c in lcalls if c.func.attr == "append"]
+        wr = [c for c in lcalls if c.func.attr == "write_to_stream"]
+        ok = len(ap) == 1 and len(ap[0].args) == 1 and _is_name(ap[0].args[0], "self") and len(lcalls) == 2 and len(wr) == 1 and \
+            _stmt_index(fn, ap[0]) < _stmt_index(fn, wr[0] if wr else ap[0]) and \
+            all(k.arg == "taxon_import_strategy" and isinstance(k.value, ast.Constant) and k.value.value == "add" for k in ap[0].keywords)
+        emit(p + ".the-list-holds-exactly-this-tree[not a copy, not migrated]", ok, target, "calls on the list: %s" % [ast.unparse(c) for c in lcalls])
+        ok = False
+        if wr:
+            c = wr[0]
+            a = list(c.args)
+            dest = a[0] if a else _kw(c, "dest")
+            sch = a[1] if len(a) > 1 else _kw(c, "schema")
+            ok = _is_name(dest, "stream") and _is_name(sch, "schema") and _passes_kwargs(c, fn) and len(c.args) + len([k for k in c.keywords if k.arg]) == 2
+        emit(p + ".forwards[stream, schema, **kwargs]", ok, target, "write_to_stream call: %s" % [ast.unparse(c) for c in wr])
+        emit(p + ".options-untouched", _options_untouched(fn, ("kwargs", "schema", "stream")) and not any(isinstance(n, (ast.For, ast.While, ast.If, ast.Try)) for n in ast.walk(fn)),
+             target, "kwargs/schema/stream are modified, or the write is conditional")
     return out
 
 
